@@ -92,7 +92,8 @@ def sections_of(config) -> dict:
             out[path] = obj
             return
         for key in obj.keys():
-            rec(f"{path}.{key}" if path else key, obj[key])
+            shown = key.replace(".", "\u00b7")      # a dot inside one nesting level is not a level boundary
+            rec(f"{path}.{shown}" if path else shown, obj[key])
 
     rec("", config)
     return out
@@ -159,10 +160,15 @@ def nontrivial(cfg: dict) -> bool:
 
 def judge(ctx: Ctx, rec: dict, dev: int, source: str, reported: set) -> bool:
     """The property on the real code for one configuration (only if it exists and is readable)."""
-    if not rec["ok"] or as_map(rec["dict"]) == "ERR":
+    view = as_map(rec["view"])
+    if not rec["ok"] or any(v is None for o in view.values() for v in o.values()):
         return True
+    if as_map(rec["dict"]) == "ERR":
+        ctx.violation(f"get_config_dict() raises {rec['errors'].get('dict')} on a configuration whose values are all readable "
+                      f"[INI: {render_ini(rec['cfg'])!r}]", {"source": source, "cfg": rec["cfg"], "model_deviation": 0})
+        return False
     ok = True
-    view, back = as_map(rec["view"]), as_map(rec["back"])
+    back = as_map(rec["back"])
     if back == "ERR" or back != view:
         ok = False
         what = (f"Config(config_dict=c.get_config_dict()) raises {rec['errors'].get('back')}" if back == "ERR" else
@@ -183,7 +189,7 @@ def judge(ctx: Ctx, rec: dict, dev: int, source: str, reported: set) -> bool:
                     bad = True
     if bad:
         ok = False
-        ctx.violation(f"replace_config_dir rewrote something else than the values containing {LOCAL_DIR!r}: {d0} -> {d1}",
+        ctx.violation(f"replace_config_dir must rewrite exactly the values containing {LOCAL_DIR!r} (every occurrence, nothing else): {d0} -> {d1}",
                       {"source": source, "cfg": rec["cfg"], "what": "replace"})
     return ok
 
